@@ -221,11 +221,11 @@ def run_shard(pid, tier, seed_value, shard, nshards, budget_s):
     deadline = time.time() + budget_s
     only = os.environ.get("VERIF_FACETS")
     out = []
-    for facet in prop.facets:
+    for fi, facet in enumerate(prop.facets):
         if only and facet.name not in only.split(","):
             continue
         muted = [k["signature"] for k in known if k["status"] == "known" and k.get("facet") in (None, facet.name)]
-        s = shard_seed(seed_value, shard)
+        s = shard_seed(seed_value, shard) * 31 + fi
         stats = run_facet(prop, facet, tier, s, muted, deadline, shard, nshards)
         out.append(stats.to_json())
     return out
